@@ -486,6 +486,24 @@ def rule_g_append_only_table(ctx, fns):
         w = cfg.must_pass_before_exit([r for r in resets if r.i in cfg.pos], is_reserve)
         ctx.ob("C18.g-append-only-table", f.qn + "(" + f.sig[:30] + ")", "reserve-after-reset", w is None, f.where(), "after emptying detection_points_vector its capacity is reserved for total_detectors on every path" if w is None else "detection_points_vector is emptied/replaced and a path returns without reserve(total_detectors): a later push_back under the critical section reallocates while other threads hold references")
         n += 1
+    # the cap the appends stop at (total_detectors) and the capacity reserved must be the same number when the function returns:
+    # whoever changes the cap re-reserves for the NEW value afterwards, on every path
+    from engine.tree import root_of_lvalue, written_lvalues
+
+    for f in fns:
+        if f.body is None or not f.cfg_raw or f.is_ctor:
+            continue
+        capw = [m for m in f.walk() if m.i is not None and "this.total_detectors" in {root_of_lvalue(e) for e in written_lvalues(m)}]
+        if not capw:
+            continue
+        cfg = CFG(f)
+
+        def is_reserve2(x):
+            return x.k == "CXXMemberCallExpr" and (x.callee or "").endswith("vector::reserve") and key(x.c[0], True) == "this.detection_points_vector" and "total_detectors" in key(x, True)
+
+        w = cfg.must_pass_before_exit([r for r in capw if r.i in cfg.pos], is_reserve2)
+        ctx.ob("C18.g-append-only-table", f.qn + "(" + f.sig[:30] + ")", "reserve-after-cap-change", w is None, capw[0].where(), "after total_detectors changes, room for that many detection points is reserved on every path" if w is None else "total_detectors (the size the appends stop at) is changed and a path returns without reserve(total_detectors) afterwards: the capacity reserved belongs to the old value, a push_back under the critical section can reallocate while other threads hold references")
+        n += 1
     for f in fns:
         if f.short == "find_in_detection_points_vector" and f.cfg_raw:
             cfg = CFG(f)
